@@ -9,6 +9,9 @@ CLAIMS = {
  "C06": dict(level="proof", ref="7/C06",
    text="Register.resolve_qubit / resolve_size (and their helpers) are proved against the property's own alias arithmetic (spec functions root/phys/size_of) for every alias chain depth, every literal or let-valued start/stop/step and every index; raise conditions are proved exactly (raises iff the index is out of range at some level). Proof level because the property's core sentence is the postcondition discharged for all inputs.",
    note="Trusted: pyvc encoder, z3, CPython semantics as modelled; IR graphs acyclic; products of two non-literals are uninterpreted in proof mode (congruence only); consumers other than Register (fill_in_map, used-qubit visitor, emulator) are covered by their own obligations listed in evidence or by the bounded stand-in, see evidence.functions_under_contract."),
+ "C09": dict(level="proof", ref="7/C09",
+   text="Every statement-level method of SubcircuitExpander (visit_default, visit_LoopStatement, visit_BlockStatement, process_subcircuit, process_non_subcircuit_block) is proved to return a tree related to its input by the relational spec xsub: each subcircuit block becomes a non-subcircuit block  prepare() <visited children> measure(), every other statement, nesting, block kind and loop count is unchanged and no subcircuit block remains; _choose_bounding_gate is proved to pick the caller's definition, else the native one, else a fresh one. The proof is modular induction over the statement tree (each method against the others' contracts), for all trees. Header data, macro bodies and the equivalence of the two spellings under execution are covered by the bounded stand-in (labelled bounded).",
+   note="Assumed (listed in evidence.assumptions): AbstractGate.__call__ on a parameterless definition returns its GateStatement (assumed contract, not yet verified); statement trees are finite/acyclic. SubcircuitExpander.visit_Circuit and run/result pipeline positions are only exercised by the bounded stand-in."),
 }
 NA_REASON = "check not built yet in this round (work in progress; DESIGN.md section 7 gives the planned contracts)"
 
